@@ -106,7 +106,7 @@ def r3(ctx):
     ctx.sub(c13.r2)
 
 
-@rule("C17", "R4", "OWN", "the metric only reads the model it is given")
+@rule("C17", "R4", "OWN", "the metric only reads the model it is given", evidence=True)
 def r_readonly(ctx):
     from .c06 import readers_do_not_write
     readers_do_not_write(ctx, ["cluster_metrics.bayesian_information_criterion" if "C17" == "C16" else "cluster_metrics.calinski_harabasz_index"])
